@@ -203,6 +203,37 @@ impl Space for ByteWalks {
     }
 }
 
+/// Offsets far beyond the buffer: around every power of two where an offset could be narrowed,
+/// sign-converted or wrapped (2^7 .. 2^63), and the top of the usize range.
+struct FarOffsets;
+const FAR_LENS: [usize; 8] = [0, 1, 2, 4, 8, 9, 16, 24];
+const FAR_POWS: [u32; 15] = [7, 8, 15, 16, 24, 31, 32, 33, 40, 47, 48, 56, 62, 63, 64];
+impl Space for FarOffsets {
+    fn name(&self) -> String {
+        "buffer length in {0,1,2,4,8,9,16,24} x offsets 2^p + k (mod 2^64) for p in {7,8,15,16,24,31,32,33,40,47,48,56,62,63,64} and k in -17..=len+9 x 5 specs x 6 widths".into()
+    }
+    fn size(&self) -> u64 {
+        (FAR_LENS.len() * FAR_POWS.len()) as u64
+    }
+    fn describe(&self, idx: u64) -> Value {
+        json!({"buffer_len": FAR_LENS[idx as usize % 8], "offsets_around": format!("2^{}", FAR_POWS[idx as usize / 8])})
+    }
+    fn run(&self, idx: u64, out: &mut Outcome) {
+        let len = FAR_LENS[idx as usize % 8];
+        let p = FAR_POWS[idx as usize / 8];
+        let base: usize = if p == 64 { 0 } else { 1usize << p };
+        let b: Vec<u8> = (0..len).map(|i| 0x11u8.wrapping_mul(i as u8 + 1) ^ 0x80).collect();
+        let mut dig = Fnv::new();
+        let mut oks = 0;
+        for k in -17i64..=(len as i64 + 9) {
+            oks += check_point(&b, base.wrapping_add(k as usize), out, &mut dig);
+        }
+        // non-trivial when the crate answered every far offset (Ok only possible for p = 64, k inside)
+        dig.u64(idx);
+        out.nontrivial(dig.get() ^ oks as u64);
+    }
+}
+
 /// All 2^32 values of a 4-byte buffer for u32/i32 (thorough). One case = 65536 values.
 struct AllU32;
 impl Space for AllU32 {
@@ -262,6 +293,7 @@ pub fn build(tier: Tier) -> CheckDef {
     let mut spaces: Vec<Box<dyn Space>> = Vec::new();
     spaces.push(Box::new(ShortBuffers { maxlen: tier.pick(2, 3) }));
     spaces.push(Box::new(ByteWalks));
+    spaces.push(Box::new(FarOffsets));
     if tier == Tier::Thorough {
         spaces.push(Box::new(AllU32));
     }
